@@ -9,7 +9,7 @@ git -C /repo worktree add -q "$wt" HEAD || exit 2
 trap 'git -C /repo worktree remove --force "$wt" >/dev/null 2>&1' EXIT
 cp /repo/spsdk/__version__.py "$wt/spsdk/__version__.py"   # generated, git-ignored file the package needs
 if [ -n "$demo" ]; then
-  demo="$(realpath "$demo")"
+  mkdir -p "$wt/_out/x" && cp "$(realpath "$demo")" "$wt/_out/x/demo.py" && demo="$wt/_out/x/demo.py"   # demos may locate the tree relative to themselves
   ( cd "$wt" && PYTHONPATH="$wt" SPSDK_CACHE_FOLDER="$wt/_cache" timeout 600 /venv/bin/python "$demo" >/tmp/evalmut-demo-base.log 2>&1 ); echo "demo on HEAD: rc=$? ($(tail -1 /tmp/evalmut-demo-base.log))"
 fi
 git -C "$wt" apply "$patch" || { echo "PATCH DOES NOT APPLY"; exit 2; }
